@@ -261,3 +261,73 @@ def install_en_contracts():
     en.apply_binary_rules = checked
     _patch_registries('en', checked)
     _installed.add('en')
+
+
+# ------------------------------------------------------------------ Japanese grammar (C04)
+from vlib import schemas_ja  # noqa: E402
+
+
+def _ja_binary_post(x, y, seen_rules, result):
+    _count('contract:ja.apply_binary_rules')
+    try:
+        rx, ry = refcat.to_ref(x), refcat.to_ref(y)
+        wit = {'x': refcat.ref_print(rx), 'y': refcat.ref_print(ry)}
+        for r in result:
+            t = _res_tuple(r)
+            ok, why = schemas_ja.justified(rx, ry, t)
+            if ok is None:
+                _count('contract:ja.apply_binary_rules:out-of-domain')
+                continue
+            _count('contract:ja:result-justified')
+            if _R is not None:
+                _R.hist('ja_symbols_seen', t[2])
+            if not ok:
+                _viol(f'ja:{t[2]}:unjustified', f'{wit["x"]} + {wit["y"]} -> {refcat.ref_print(t[0])} [{t[1]} {t[2]} head_left={t[3]}]: {why}',
+                      dict(wit, result=refcat.ref_print(t[0]), label=t[1], symbol=t[2], head_is_left=t[3]))
+    except Exception as e:
+        _viol('ja:contract-error', f'contract could not inspect the call: {e!r}', {})
+    return True
+
+
+def _ja_unary_post(x, unary_rules, result):
+    _count('contract:ja.apply_unary_rules')
+    try:
+        rx = refcat.to_ref(x)
+        want = schemas_ja.unary_label(rx)
+        for r in result:
+            if want is None:
+                _count('contract:ja.apply_unary_rules:out-of-domain')
+                continue
+            _count('contract:ja:unary-label-judged')
+            if _R is not None:
+                _R.hist('ja_unary_labels_seen', r.op_string)
+            if r.op_string != want or r.op_symbol != want:
+                _viol('ja:unary-label', f'type-changing step on {refcat.ref_print(rx)} is labelled {r.op_string!r}/{r.op_symbol!r}, '
+                      f'its shape implies {want!r}', {'x': refcat.ref_print(rx), 'got': r.op_string, 'expected': want})
+    except Exception as e:
+        _viol('ja:contract-error', f'contract could not inspect the call: {e!r}', {})
+    return True
+
+
+def install_ja_contracts():
+    if 'ja' in _installed:
+        return
+    from depccg.grammar import ja
+    orig = ja.apply_binary_rules
+    orig_u = ja.apply_unary_rules
+
+    def apply_binary_rules(x, y, seen_rules=None):
+        return orig(x, y, seen_rules)
+
+    def apply_unary_rules(x, unary_rules):
+        return orig_u(x, unary_rules)
+    checked = icontract.ensure(_ja_binary_post, error=ContractBroken)(apply_binary_rules)
+    checked_u = icontract.ensure(_ja_unary_post, error=ContractBroken)(apply_unary_rules)
+    ja.apply_binary_rules = checked
+    ja.apply_unary_rules = checked_u
+    _patch_registries('ja', checked)
+    import sys
+    m = sys.modules.get('depccg.instance_models')
+    if m is not None:
+        m.GRAMMARS['ja'] = type(m.GRAMMARS['ja'])(checked, checked_u)
+    _installed.add('ja')
